@@ -211,3 +211,149 @@ pub proof fn lemma_c19_conversions_agree(s: std::net::SocketAddr, d: std::net::S
     }
 {
 }
+
+// ======================================================================================
+// C08 through every text entry point: the canonical line is its own window, is US-ASCII (hence
+// valid UTF-8) and is accepted with the same value by the text and the byte entry point
+// ======================================================================================
+
+/// US-ASCII bytes are valid UTF-8 (induction over vstd::utf8's scalar decomposition)
+pub proof fn lemma_ascii_valid_utf8(b: Seq<u8>)
+    requires forall|i: int| 0 <= i < b.len() ==> b[i] < 128
+    ensures vstd::utf8::valid_utf8(b)
+    decreases b.len()
+{
+    if b.len() > 0 {
+        assert(vstd::utf8::is_leading_byte_width_1(b[0]));
+        assert(vstd::utf8::length_of_first_scalar(b) == 1);
+        let p = vstd::utf8::pop_first_scalar(b);
+        assert(p =~= b.subrange(1, b.len() as int));
+        assert forall|i: int| 0 <= i < p.len() implies p[i] < 128 by { assert(p[i] == b[i + 1]); }
+        lemma_ascii_valid_utf8(p);
+        assert(vstd::utf8::valid_first_scalar(b));
+    }
+}
+
+/// a well-formed TCP line: its only CR is the one of the final CRLF, and every byte is US-ASCII
+#[verifier::rlimit(60)]
+pub proof fn lemma_tcp_line_window(l: Seq<u8>, v4: bool, a: Seq<u8>, b: Seq<u8>, p: Seq<u8>, q: Seq<u8>)
+    requires
+        l =~= tcp_line(if v4 { b_tcp4() } else { b_tcp6() }, a, b, p, q),
+        v4 ==> from_str_spec::<std::net::Ipv4Addr>(a) is Ok && from_str_spec::<std::net::Ipv4Addr>(b) is Ok,
+        !v4 ==> from_str_spec::<std::net::Ipv6Addr>(a) is Ok && from_str_spec::<std::net::Ipv6Addr>(b) is Ok,
+        port_ok(p), port_ok(q),
+    ensures
+        first_index_of(l, 13u8) + 2 == l.len(),
+        forall|j: int| 0 <= j < l.len() ==> #[trigger] l[j] < 128,
+{
+    broadcast use crate::prelude::prelude_parse_axioms;
+    broadcast use crate::prelude::prelude_str_axioms;
+    let kw = if v4 { b_tcp4() } else { b_tcp6() };
+    assert(l == tcp_line(kw, a, b, p, q));
+    lemma_keywords_no_sep();
+    assert(addr_bytes(a) && addr_bytes(b));
+    lemma_addr_plain(a); lemma_addr_plain(b); lemma_digits_plain(p); lemma_digits_plain(q);
+    assert(plain_field(kw));
+    let n = l.len() as int;
+    lemma_line_bytes(kw, a, b, p, q, n - 1);
+    lemma_first_index_bounds(l, 13u8);
+    let c = first_index_of(l, 13u8);
+    if c < n - 2 { lemma_line_bytes(kw, a, b, p, q, c); }
+    // every byte is ASCII
+    let o1 = 6int; let o2 = o1 + kw.len() + 1; let o3 = o2 + a.len() + 1; let o4 = o3 + b.len() + 1; let o5 = o4 + p.len() + 1;
+    let o6 = o5 + q.len();
+    assert(n == o6 + 2);
+    assert forall|j: int| 0 <= j < n implies #[trigger] l[j] < 128 by {
+        if j < 5 { assert(l[j] == b_proxy()[j]); }
+        else if j == 5 { assert(l[j] == 32u8); }
+        else if j < o1 + kw.len() { assert(l[j] == kw[j - o1]); }
+        else if j == o2 - 1 { assert(l[j] == 32u8); }
+        else if j < o2 + a.len() { assert(l[j] == a[j - o2]); assert(addr_byte(a[j - o2])); }
+        else if j == o3 - 1 { assert(l[j] == 32u8); }
+        else if j < o3 + b.len() { assert(l[j] == b[j - o3]); assert(addr_byte(b[j - o3])); }
+        else if j == o4 - 1 { assert(l[j] == 32u8); }
+        else if j < o4 + p.len() { assert(l[j] == p[j - o4]); assert(is_digit(p[j - o4])); }
+        else if j == o5 - 1 { assert(l[j] == 32u8); }
+        else if j < o5 + q.len() { assert(l[j] == q[j - o5]); assert(is_digit(q[j - o5])); }
+        else if j == o6 { assert(l[j] == 13u8); }
+        else { assert(l[j] == 10u8); }
+    }
+}
+
+/// an accepted US-ASCII line whose only CR is the final one is accepted, as a whole, by the text
+/// and by the byte entry point
+#[verifier::rlimit(60)]
+pub proof fn lemma_line_accepted_by_entries(l: Seq<u8>, a: V1Addresses)
+    requires
+        line_verdict(l) == V1V::Accept(a), l.len() <= 107,
+        first_index_of(l, 13u8) + 2 == l.len(),
+        forall|j: int| 0 <= j < l.len() ==> #[trigger] l[j] < 128,
+    ensures
+        v1_window(l) =~= l,
+        vstd::utf8::valid_utf8(l),
+        entry_verdict_str(l) == V1V::Accept(a),
+        entry_verdict_bytes(l) == V1BV::Line(V1V::Accept(a)),
+{
+    broadcast use crate::prelude::prelude_utf8_axioms;
+    let n = l.len() as int;
+    lemma_first_index_bounds(l, 13u8);
+    assert(v1_window(l) =~= l);
+    lemma_ascii_valid_utf8(l);
+    assert(valid_utf8(l)) by { reveal(valid_utf8); };
+    assert(header_verdict(l) == V1V::Accept(a));
+    assert(str_cut_ok(l, n));
+}
+
+// [props: C08 C01]
+/// every text entry point accepts the canonical line of an address value with exactly that value:
+/// the line is its own window (its only CR is the final one), it is valid UTF-8, so the text
+/// entry point, the `FromStr` impls (stated over the same verdict) and the byte entry point all
+/// return `a`
+#[verifier::rlimit(60)]
+pub proof fn lemma_c08_entries(a: V1Addresses)
+    ensures
+        v1_window(v1_display(a)) =~= v1_display(a),
+        vstd::utf8::valid_utf8(v1_display(a)),
+        entry_verdict_str(v1_display(a)) == V1V::Accept(a),
+        entry_verdict_bytes(v1_display(a)) == V1BV::Line(V1V::Accept(a)),
+{
+    lemma_c08_roundtrip(a);
+    lemma_c08_line_facts(a);
+    lemma_line_accepted_by_entries(v1_display(a), a);
+}
+
+/// the canonical line: its only CR is the final one and every byte is US-ASCII
+#[verifier::rlimit(60)]
+pub proof fn lemma_c08_line_facts(a: V1Addresses)
+    ensures
+        first_index_of(v1_display(a), 13u8) + 2 == v1_display(a).len(),
+        forall|j: int| 0 <= j < v1_display(a).len() ==> #[trigger] v1_display(a)[j] < 128,
+{
+    broadcast use crate::prelude::prelude_str_axioms;
+    broadcast use crate::prelude::prelude_display_axioms;
+    let l = v1_display(a);
+    let n = l.len() as int;
+    match a {
+        V1Addresses::Unknown => {
+            assert(unknown_line(l));
+            lemma_unknown_bytes(l);
+            lemma_first_index_bounds(l, 13u8);
+            assert(l =~= unknown_head() + b_crlf());
+            assert forall|j: int| 0 <= j < n implies #[trigger] l[j] < 128 by {
+                if j < 13 { assert(l[j] == unknown_head()[j]); } else { assert(l[j] == b_crlf()[j - 13]); }
+            }
+        },
+        V1Addresses::Tcp4(x) => {
+            let (sa, da, spt, dpt) = (display_ipv4(x.source_address), display_ipv4(x.destination_address), display_u16(x.source_port), display_u16(x.destination_port));
+            assert(port_ok(spt) && port_ok(dpt));
+            assert(l =~= tcp_line(b_tcp4(), sa, da, spt, dpt));
+            lemma_tcp_line_window(l, true, sa, da, spt, dpt);
+        },
+        V1Addresses::Tcp6(x) => {
+            let (sa, da, spt, dpt) = (display_ipv6(x.source_address), display_ipv6(x.destination_address), display_u16(x.source_port), display_u16(x.destination_port));
+            assert(port_ok(spt) && port_ok(dpt));
+            assert(l =~= tcp_line(b_tcp6(), sa, da, spt, dpt));
+            lemma_tcp_line_window(l, false, sa, da, spt, dpt);
+        },
+    }
+}
